@@ -415,14 +415,18 @@ def discover(chk, tier='thorough', limit=None):
         plans = chk.make_plans(ctx, tier, items)
         if limit:
             plans = plans[::max(1, len(plans) // limit)]
-        ident = hashlib.sha1(json.dumps(plans, sort_keys=True).encode()).hexdigest()[:12]
-        log = os.path.join(C.BUILD, 'discover-%s-%s.jsonl' % (chk.PROP, ident))
+        # the log is keyed by the content of a point, so that it survives additions to the space
+        log = os.path.join(C.BUILD, 'discover-%s.jsonl' % chk.PROP)
+        pkey = [json.dumps([p['item'], p['params']], sort_keys=True) for p in plans]
+        index = dict((k, i) for i, k in enumerate(pkey))
         done = {}
         if os.path.exists(log):
             for l in open(log):
                 try:
                     r = json.loads(l)
-                    done[r['i']] = r
+                    if r.get('p') in index:
+                        r['i'] = index[r['p']]
+                        done[r['i']] = r
                 except ValueError:
                     pass
         todo = [i for i in range(len(plans)) if i not in done]
@@ -433,7 +437,7 @@ def discover(chk, tier='thorough', limit=None):
                 chunk = todo[a:a + 400]
                 res = C.pmap(lambda i: chk.execute(ctx, items[plans[i]['item']], plans[i]['params']), chunk, jobs)
                 for i, r in zip(chunk, res):
-                    rec = {'i': i, 'outcome': r.outcome, 'key': r.key if r.verdict else None,
+                    rec = {'i': i, 'p': pkey[i], 'outcome': r.outcome, 'key': r.key if r.verdict else None,
                            'details': r.verdict[1] if r.verdict else None, 'stderr': r.info.get('stderr_tail') if r.verdict else None}
                     done[i] = rec
                     out.write(json.dumps(rec) + '\n')
